@@ -636,6 +636,49 @@ pub fn resolve_range_operand<'b>(cddl: &'b CDDL<'b>, t2: &'b Type2<'b>) -> &'b T
   t2
 }
 
+/// Control operand with parentheses removed and plain rule references
+/// (`x1 .size 1` with `x1 = (uint)`) followed to the type they name. Unlike
+/// `resolve_range_operand` the result keeps the schema lifetime, so it can be
+/// visited again.
+pub fn resolve_control_operand<'a, 'b>(cddl: &'a CDDL<'a>, t2: &'b Type2<'a>) -> &'b Type2<'a>
+where
+  'a: 'b,
+{
+  let mut t2 = strip_operand_parens(t2);
+  for _ in 0..16 {
+    let Type2::Typename {
+      ident,
+      generic_args: None,
+      ..
+    } = t2
+    else {
+      break;
+    };
+    let Some(Rule::Type { rule, .. }) = rule_from_ident(cddl, ident) else {
+      break;
+    };
+    match rule.value.type_choices.as_slice() {
+      // only an alias that adds nothing but parentheses or another name
+      [tc]
+        if tc.type1.operator.is_none()
+          && rule.generic_params.is_none()
+          && matches!(
+            strip_operand_parens(&tc.type1.type2),
+            Type2::Typename {
+              generic_args: None,
+              ..
+            }
+          ) =>
+      {
+        t2 = strip_operand_parens(&tc.type1.type2)
+      }
+      _ => break,
+    }
+  }
+
+  t2
+}
+
 /// Find text values from a given identifier
 pub fn text_value_from_ident<'a>(cddl: &'a CDDL, ident: &Identifier) -> Option<&'a Type2<'a>> {
   cddl.rules.iter().find_map(|r| match r {
